@@ -243,9 +243,11 @@ def run(ctx, anchors=None):
 
     # ---- R17.4 gate position and control
     cfg = opstep.cfg()
-    fexec_reads = [n for n in opstep.nodes() if n["k"] == "ref" and n["n"] == "fExec" and n.get("dk") == "local"]
+    from . import common as _common
+    FX = _common.executed_flag(opstep)
+    fexec_reads = [n for n in opstep.nodes() if n["k"] == "ref" and n["n"] == FX and n.get("dk") == "local"]
     early = [r for r in fexec_reads if cfg.dominates(r, gnode["cond"])]
-    nested = [(c, t) for (c, t) in S.ast_guards(opstep, gnode) if any(x["k"] == "ref" and x["n"] == "fExec" for x in walk(c))]
+    nested = [(c, t) for (c, t) in S.ast_guards(opstep, gnode) if any(x["k"] == "ref" and x["n"] == FX for x in walk(c))]
     ctx.inst(not early and not nested, "R17.4", "gate-before-executed-test", opstep.loc(gnode),
              "the gate is evaluated before any test of fExec (disabled opcodes fail even in unexecuted branches)",
              "the gate is evaluated after / under the fExec test: a disabled opcode in an unexecuted branch no longer fails")
